@@ -8,7 +8,13 @@
 //	rounds    N rounds, each a fresh Stack with real UDP/TCP/DoT/DoH/DoQ
 //	          listeners, tiny ingress bounds and its own GOMAXPROCS, driven by
 //	          a few hundred concurrent client endpoints (round.go, clients.go)
-//	          judged per unit by the provenance oracle (oracle.go)
+//	          judged per unit by the provenance oracle (oracle.go); among the
+//	          question kinds are aliases whose replies the cache composes from
+//	          several cached entries, re-asked in every client's own spelling
+//	          (gen.go), and next to the scripted clients run the DoQ storms:
+//	          malformed DoQ messages on throw-away connections, each batch
+//	          followed at once by exchanges held in the server together
+//	          (doqstorm.go)
 //	portable  one such round in which, half way, a seccomp filter makes
 //	          recvmmsg fail with ENOSYS so every UDP socket falls back to the
 //	          portable reader while slabs armed by the batch reader are reused
@@ -163,6 +169,28 @@ func parent(r *vlib.Run) {
 	r.Require("cache_wire_dnssec_on_failure_served", 150)
 	r.Require("cache_wire_cut_served", 150) // the RFC 8020 rung (DNSSEC-on rounds only)
 	r.Require("cache_wire_served", 5000)
+	// replies put together from several cached parts (an alias entry and the
+	// entries of the names it leads to), asked again in the client's own spelling
+	r.Require("matched_kind_alias", 400)
+	r.Require("matched_kind_aliashit", 1200)
+	r.Require("cache_wire_chase_served", 800) // the cache's chase composer really built replies in leased slabs
+	r.Require("cache_wire_dnssec_on_chase_served", 300)
+	for tr, n := range map[string]int64{"udp": 1000, "tcp": 200, "dot": 100, "doh": 20, "doq": 15} {
+		r.Require("alias_chains_verified_"+tr, n)
+	}
+	for tr, n := range map[string]int64{"udp": 600, "tcp": 120, "dot": 60} {
+		r.Require("alias_respelled_hits_verified_"+tr, n)
+	}
+	// DoQ storms: malformed messages, then exchanges that were in the server together
+	r.Require("doq_malformed_sessions_closed_by_server", 60)
+	r.Require("doq_malformed_sessions_closed_by_server_undecodable", 40)
+	for _, v := range []string{"short", "prefix_mismatch", "empty"} {
+		r.Require("doq_malformed_sessions_closed_by_server_"+v, 3)
+	}
+	r.Require("doq_storm_waves_all_in_flight_together", 20)
+	r.Require("doq_storm_waves_all_in_flight_together_under_load", 8)
+	r.Require("doq_storm_overlapping_exchanges_answered", 120)
+	r.Require("matched_kind_barrier", 120)
 	for _, tr := range []string{"udp", "tcp", "dot"} {
 		r.Require("headers_verified_failure_"+tr, map[string]int64{"udp": 800, "tcp": 150, "dot": 80}[tr])
 		r.Require("nxcut_authority_verified_"+tr, map[string]int64{"udp": 300, "tcp": 60, "dot": 30}[tr])
